@@ -4,7 +4,10 @@ EXTENDS ArrayBuf, Json, IOUtils, TLC
    of the ideal bounded vector for the recorded operation sequence; Debug and == depend on the visible contents only. *)
 CapOf(n) == IF n < 0 THEN 1073741824 ELSE n
 Mon(r) == /\ r.obs = IdealObs(<<>>, CapOf(r.n), r.ops, 1, <<>>)
-          /\ r.dbg = 1 /\ r.eq = <<1, 0>>
+          /\ r.dbg = 1
+          \* eq = <<same contents / different stale bytes, last byte differs, b = strict prefix (b left), (b right),
+          \*        b = extension of b (b left), (b right), same contents with the operands swapped>>
+          /\ r.eq = <<1, 0, 0, 0, 0, 0, 1>>
 
 \* ---- batch judge loop (generated boilerplate, see bin/vf) ---------------
 Recs == ndJsonDeserialize(IOEnv.VF_TRACE)
